@@ -37,8 +37,8 @@ ALL_UNITS = ["U-overlap", "U-bigint", "U-constrain", "U-resolver", "U-iterate", 
 
 PROPERTIES = {
     "C01": {
-        "units": ["U-resolver", "U-bitvec", "U-constrain", "U-cursor"],
-        "claim": "Address bookkeeping, for all inputs: eval_address/get_address return addr_start + position / addr_unit, and a position that is not a whole number of addresses is rejected when guessing is forbidden; advance_address moves only the current bank, by exactly the size of the item before (instruction / data element / #res), to the next multiple for #align, and to (address - addr_start) * addr_unit for #addr; bits_until_alignment returns the least non-negative distance; resolve_label stores exactly the address of what follows; every defined bank has a positive address unit (proved at bankdef::define); ResolveIterator::next (the AST walk shared by the resolve passes and build_output) keeps its cursor well formed and yields only nodes whose items are defined and whose bank exists, given an AST that refers to defined items. BitVec::write_bigint writes a sized value MSB-first at [index, index+size) and changes no other bit. Typed arguments are accepted exactly on their range (check_and_constrain_argument, see C04).",
+        "units": ["U-resolver", "U-bitvec", "U-constrain", "U-cursor", "U-output"],
+        "claim": "Address bookkeeping, for all inputs: eval_address/get_address return addr_start + position / addr_unit, and a position that is not a whole number of addresses is rejected when guessing is forbidden; advance_address moves only the current bank, by exactly the size of the item before (instruction / data element / #res), to the next multiple for #align, and to (address - addr_start) * addr_unit for #addr; bits_until_alignment returns the least non-negative distance; resolve_label stores exactly the address of what follows; every defined bank has a positive address unit (proved at bankdef::define); ResolveIterator::next (the AST walk shared by the resolve passes and build_output) keeps its cursor well formed and yields only nodes whose items are defined and whose bank exists, given an AST that refers to defined items. BitVec::write_bigint writes a sized value MSB-first at [index, index+size) and changes no other bit. Typed arguments are accepted exactly on their range (check_and_constrain_argument, see C04). build_output: every sized item recorded at logical address a sits at outp_b + p of a defined bank b with a = addr_b + p / unit_b, inside that bank's window.",
         "not_reached": "rule matching, argument evaluation, choice of the smallest encoding (resolve_encoding), parsing, data-directive evaluation, the loop of build_output that ties the checked pieces together",
         "trusted_base": NUMBIGINT_TB + REPORT_TB + RESOLVER_TB,
     },
